@@ -459,10 +459,17 @@ def run(tier):
         t = by_id[tid]
         v.violation(key_of(t, matched), f"{t['text'][:300]!r} -> event #{matched + 1} ({evname}) rejected: "
                     f"{json.dumps(t['ev'][min(matched, len(t['ev']) - 1)])[:400]}", {"text": t["text"], "trace": _strip(t)})
+    # ---- system lane: the same programs, end to end (BD text -> SB 2.1 file -> mboot link -> device -> boot ROM), spec/SYS/SbLoadTrace.tla
+    import sys_sbload
+
+    sys_sbload.run_lane(v, allp, tier, PROP)
+
     v.cov["rule"] = ("expressions: all ASTs of depth <= 2 over 18 binary and 3 unary operators and a literal menu that lie in the asserted domain "
                      "(TLC enumerates, each rendered with minimal parentheses and evaluated by the real parser); programs: every single-statement "
                      "program of the statement menu (quick: seeded subset of 1500) + simulated programs with up to 4 definitions, 3 sections, "
-                     "3 statements each; non-trivial = accepted by the real parser; distinct by program text")
+                     "3 statements each; non-trivial = accepted by the real parser; distinct by program text; system lane: a seeded subset of the programs "
+                     "built into SB 2.1 files by SPSDK, sent with McuBoot.receive_sb_file to the device twin over both transports, the bytes the device holds "
+                     "walked by the independent boot-ROM executor, the decoded sections / commands compared by TLC with the language semantics (SbLoadTrace)")
     v.assumptions += ["operands stay below 2^31 (TLC integers); negative operands of / % << >> & | ^ and non-boolean operands of && || are outside the asserted domain",
                       "the renderer (minimal parentheses by documented C precedence) is trusted",
                       "fill patterns are generated only where all readings agree (.b < 0x100, .h >= 0x100, .w >= 0x1000000)"]
@@ -480,6 +487,15 @@ def _strip(t):
 def replay(path):
     import_spsdk()
     w = json.load(open(path))["witness"]
+    if w.get("e2e"):
+        import sys_sbload
+
+        os.chdir(Runner().dir)
+        if sys_sbload.replay(w):
+            say(f"VIOLATION property=C19 replay={path}")
+            return 1
+        say("replay: accepted by the composed specification")
+        return 0
     runner = Runner()
     os.chdir(runner.dir)
     say(w["text"])
